@@ -586,6 +586,10 @@ def compileExperiment (cli : Cli) (root : Doc) (dataFile : Doc) (exp : Doc) (d :
   let v1 := compileVars exp v
   -- persistence.py:196-198
   if !fileOk then throw .valueError
+  -- persistence.py (repaired): a name with a null byte is rejected with a ValueError
+  match (if truthy ownFile then ownFile else dataFile) with
+  | .str s => if s.toList.contains (Char.ofNat 0) then throw .valueError
+  | _ => pure ()
   match opened with
   | some s => if s ∈ cli.unreadable then throw .osError
   | none => pure ()
